@@ -14,7 +14,7 @@
    vacancies), every node type, every output node and every prior processor state. *)
 Require Import List Arith Relations.
 From Dasp Require Import Base.Res Graph.Dfs Graph.Process Graph.ProcessSpec Graph.DfsProofs
-  Graph.ProcessProofs Graph.EvalProofs Graph.ExtraProofs Graph.GraphExamples.
+  Graph.ProcessProofs Graph.EvalProofs Graph.ExtraProofs Graph.FuelBound Graph.GraphExamples.
 Import ListNotations.
 
 (* the call returns: no panic, no fuel exhaustion of the modelled loops *)
@@ -23,6 +23,12 @@ Theorem c09_terminates : forall (W B : Type) (bufs : W -> B) (nproc : W -> list 
   exists p' g' log, process bufs nproc p g out = Ok (p', g', log).
 Proof. exact @process_terminates. Qed.
 Print Assumptions c09_terminates.
+
+(* the fuel the model gives its two loops (proved sufficient above) is linear in the graph *)
+Theorem c09_fuel_bound : forall (W : Type) (g : graph W),
+  fuel_of g <= 2 + length (slots g) + length (edges g).
+Proof. exact @fuel_bound. Qed.
+Print Assumptions c09_fuel_bound.
 
 (* the invoked nodes are exactly the nodes with a path to the output node (itself included) *)
 Theorem c09_visits_exactly_upstream : forall (W B : Type) (bufs : W -> B) (nproc : W -> list B -> W)
